@@ -61,6 +61,13 @@ func (w *World) Exec(st *Step) (viol *Violation) {
 		return w.execCommit(st)
 	case "dropcache":
 		w.Storage.DropCache()
+		// Eviction re-materialises slabs from registers on the next read, so handles of nested
+		// containers obtained before it belong to an old lineage (DESIGN 3.3); root handles survive.
+		for _, cid := range w.sortedHandleCIDs() {
+			if c := w.Model.Conts[cid]; c == nil || c.Parent != nil {
+				delete(w.Handles, cid)
+			}
+		}
 		w.Stats.Inc("sched.drop-cache")
 		return nil
 	case "reopen":
